@@ -34,7 +34,8 @@ def gen_script(rng: random.Random, nodes: Dict[str, Dict[str, Any]], p_bad: floa
             execs.append({"reason": "Success", "duration": dur()})
         elif kind == "shutdown":
             so = nd.get("shutdownOn") or []
-            execs = [{"reason": so[0] if so else "KnownIssue", "duration": dur()}]
+            # without a shutdown list KnownIssue is an unrecoverable exit
+            execs = [{"reason": so[0] if so else ("KnownIssue" if allow_unrecoverable else "Success"), "duration": dur()}]
         elif kind == "fail":
             execs = [{"reason": rng.choice(["KnownIssue", "SystemIssue", "UnknownIssue"]), "duration": dur()}]
         elif kind == "re4":
